@@ -26,7 +26,7 @@ for p in "$@"; do
     [ -f "$p" ] || continue
     name="$(basename "$p" .diff)"
     [ "$name" = "patch" ] && name="seeded-$(basename "$(dirname "$p")")"
-    git -C "$SCR" checkout -q -- . && git -C "$SCR" clean -qfd -e .ivpsim-target -e target
+    git -C "$SCR" checkout -q -- . && git -C "$SCR" clean -qfd -e .ivpsim-target -e .ivpsim-target-dbg -e target
     if ! git -C "$SCR" apply "$p"; then echo "$name: PATCH DOES NOT APPLY"; fail=1; continue; fi
     tests="skipped"
     case "$name" in H*) skiptests=1 ;; *) skiptests=0 ;; esac
